@@ -3,7 +3,7 @@ use crate::{
     builtins::function::ThisMode,
     bytecompiler::ByteCompiler,
     js_string,
-    vm::{CodeBlock, CodeBlockFlags, source_info::SourcePath},
+    vm::{CallFrame, CodeBlock, CodeBlockFlags, source_info::SourcePath},
 };
 use boa_ast::{
     function::{FormalParameterList, FunctionBody},
@@ -221,6 +221,13 @@ impl FunctionCompiler {
             let mut compiler = compiler.position_guard(body);
             compiler.compile_statement_list(body.statement_list(), false, false);
         }
+
+        // Falling off the end of a function body returns `undefined`, whatever a completion
+        // that was abandoned on the way (a generator `return(v)` overridden by a `break` in a
+        // `finally` block) left in the return value register.
+        compiler
+            .bytecode
+            .emit_set_accumulator(CallFrame::undefined_register().variable());
 
         compiler.params = parameters.clone();
         compiler.parameter_scope = scopes.parameter_scope();
